@@ -70,7 +70,16 @@ Fixpoint lstrip (l : list Z) : list Z :=
   | c :: r => if is_space c then lstrip r else l
   end.
 
-Definition rstrip (l : list Z) : list Z := rev (lstrip (rev l)).
+(* linear (List.rev is quadratic under vm_compute): drop the trailing run of white space *)
+Fixpoint rstrip (l : list Z) : list Z :=
+  match l with
+  | [] => []
+  | c :: r =>
+      match rstrip r with
+      | [] => if is_space c then [] else [c]
+      | r' => c :: r'
+      end
+  end.
 Definition strip (l : list Z) : list Z := lstrip (rstrip l).
 
 Fixpoint starts_with (p l : list Z) : bool :=
